@@ -83,6 +83,29 @@ def run(F, R):
                                 q_ = x_["o"].get("m") or x_["o"].get("c")
                                 if q_ is not None and not q_.get("p"):
                                     roots_.add(q_["l"])
+                    # .. and it is the *latest* answer: between the point where the handed-on value is bound and this arming the policy
+                    # is not asked again (a newer answer that was announced but then dropped leaves the timers armed for an older one)
+                    if pl_ is not None and ok:
+                        l_ = pl_["l"]
+                        for _hop in range(8):
+                            ds_ = [d_ for d_ in par.bv.defs.get(l_, []) if d_[0] in par.bv.reach0]
+                            if len(ds_) == 1 and ds_[0][2] == "rv" and ds_[0][3]["k"] == "use":
+                                q_ = ds_[0][3]["o"].get("m") or ds_[0][3]["o"].get("c")
+                                if q_ is not None and not q_.get("p"):
+                                    l_ = q_["l"]
+                                    continue
+                            break
+                        dblocks_ = sorted(set(d_[0] for d_ in par.bv.defs.get(l_, []) if d_[0] in par.bv.reach0))
+                        qblocks_ = [qb_ for qb_, qt_ in par.bv.calls() if qt_.get("callee_id") == qv.body.get("parent")]
+                        newer_ = []
+                        for d_ in dblocks_:
+                            after_d = par.bv.reach_from(list(par.bv.succ[d_]), avoid=[d_])
+                            for qb_ in qblocks_:
+                                if qb_ in after_d and bi in par.bv.reach_from(list(par.bv.succ[qb_]), avoid=[d_]):
+                                    newer_.append(qb_)
+                        if dblocks_:
+                            R.check("C12-R1", "armed-with-latest-timing:" + _k(par) + ":" + str(bi), not newer_, "no newer policy answer exists when the timers are armed",
+                                    "the timers are armed with an answer bound before a later policy query (%s): the newer, announced timing is dropped" % (lib.loc(par.bv, newer_[0]) if newer_ else ""), lib.loc(par.bv, bi))
                     touched = [(wbi_, smod._chain(wp_)) for (wbi_, wsi_, wp_, wr_) in par.bv.field_writes if wp_["l"] in roots_ and wp_.get("p") and wbi_ in par.bv.reach0 and wr_.get("k") != "callret"]
                     R.check("C12-R1", "timing-handed-on-unmodified:" + _k(par) + ":" + str(bi), not touched, "the timing is handed to the timers as the policy returned it",
                             "the timing is modified between the policy's answer and the timers (%s): the timers are not armed for exactly the announced time bound and minimum wait" % sorted(set(".".join(map(str, c_)) for _, c_ in touched))[:3],
